@@ -16,6 +16,17 @@ PROPS = {
              "thorough": {"checks": 5000, "shards": 16, "timeout": 1800}},
         ],
     },
+    "C03": {
+        "level": "fault_enumeration",
+        "jobs": [
+            {"test": "TestC03", "variant": "std", "case_timeout": 200,
+             "quick": {"checks": 9, "shards": 14, "timeout": 500}},
+            {"test": "TestC03Enum", "variant": "std", "enum": True, "case_timeout": 200,
+             "thorough": {"checks": 1, "shards": 16, "timeout": 3000}},
+            {"test": "TestC03", "variant": "std", "case_timeout": 200,
+             "thorough": {"checks": 60, "shards": 16, "timeout": 3000}},
+        ],
+    },
     "C04": {
         "level": "fault_enumeration",
         "jobs": [
